@@ -1171,6 +1171,40 @@ func rulePipelineConsts(c *Ctx) {
 			return false
 		})
 		c.Check(okPad && nTail >= 2, "const:tail-from-padded-copy", p.Pos(sfd), "both kernels process the last partial block from the padded copy", "a kernel call for the last partial block reads the caller's buffer directly: the 64-byte load runs past the end of the input", "an input that ends right before an unmapped page")
+		// the main calls hand the kernel whole 64-byte blocks only (its partial-block path loads a full block)
+		okMain, nMain, whyMain := true, 0, ""
+		var inTail func(n ast.Node) bool
+		inTail = func(n ast.Node) bool {
+			for q := p.Parent(n); q != nil; q = p.Parent(q) {
+				if ifs, ok := q.(*ast.IfStmt); ok && strings.Contains(p.Str(ifs.Cond), "processed") && strings.Contains(p.Str(ifs.Cond), "64") {
+					return true
+				}
+			}
+			return false
+		}
+		ast.Inspect(sfd.Body, func(n ast.Node) bool {
+			call, ok := n.(*ast.CallExpr)
+			if !ok || !strings.HasPrefix(p.CalleeName(call), "find_structural_bits_in_slice") || inTail(call) || len(call.Args) == 0 {
+				return true
+			}
+			nMain++
+			good := false
+			if se, ok := ast.Unparen(call.Args[0]).(*ast.SliceExpr); ok && se.Low == nil && se.Max == nil && se.High != nil {
+				if be, ok := ast.Unparen(se.High).(*ast.BinaryExpr); ok {
+					lenOf := "len(" + p.Str(se.X) + ")"
+					k, isK := p.ConstInt(be.Y)
+					if p.Str(be.X) == lenOf && isK && ((be.Op == token.AND && k == -64) || (be.Op == token.AND_NOT && k == 63)) {
+						good = true
+					}
+				}
+			}
+			if !good {
+				okMain = false
+				whyMain = p.Str(call.Args[0])
+			}
+			return true
+		})
+		c.Check(okMain && nMain >= 2, "const:main-call-whole-blocks", p.Pos(sfd), "both kernels get buf[:len(buf)&^63]", "a kernel is called on `"+whyMain+"` outside the padded-tail branch: a length that is not a multiple of 64 sends it down its partial-block path, which loads a full block and reads up to 63 bytes past the end of the input", "an input whose length is not a multiple of 64 placed right before an unmapped page")
 	}
 }
 
